@@ -32,7 +32,7 @@ func ownedDisposables(r *Run, o *Obs) []owned {
 		}
 		ri := &m.Regs[run.Reg]
 		for j, id := range run.Outs {
-			if j >= ri.NumOuts || !ri.Disposes[j] {
+			if j >= ri.NumOuts || !ri.Disposes[j] || !ri.LiveOut[j] {
 				continue
 			}
 			ow := run.Scope
@@ -300,7 +300,7 @@ func init() {
 }
 
 func disposableBias(rng *rand.Rand) GenOpts {
-	return GenOpts{Want: ClsOK, Specials: rng.Intn(2) == 0, Values: rng.Intn(6) == 0}
+	return GenOpts{Want: ClsOK, Specials: rng.Intn(2) == 0, Values: rng.Intn(6) == 0, MultiAlias: rng.Intn(3) == 0, OutGroup: rng.Intn(4) == 0, MultiOpt: rng.Intn(4) == 0, Removes: rng.Intn(3) == 0}
 }
 
 func runC10(c *eng.Ctx) {
@@ -311,6 +311,8 @@ func runC10(c *eng.Ctx) {
 		{Regs: []Reg{mkReg("Leaf_K0_a", godi.Scoped), mkReg("VoidK0", godi.Scoped), mkReg("Leaf_K1_a", godi.Scoped), mkReg("ErrOnlyK1", godi.Scoped), mkReg("NewDec0", godi.Scoped), mkReg("NewDec1", godi.Singleton), mkReg("NewDec2", godi.Transient)}},
 		{Regs: []Reg{mkReg("MR_K0K1e", godi.Singleton), mkReg("PosB_2_3", godi.Singleton), mkReg("OutE_S0S4", godi.Scoped), mkReg("MR_S1S2S5e", godi.Transient)}},
 		{Regs: []Reg{mkReg("Leaf_K0_a", godi.Singleton), mkReg("PosB_1_1", godi.Singleton), mkReg("PosB_2_3", godi.Singleton), mkReg("PosB_3_7", godi.Singleton)}},
+		// one instance under several identities (aliases), every lifetime
+		{Regs: []Reg{mkReg("Leaf_K0_a", godi.Scoped, withAs("IK0", "IA")), mkReg("Leaf_K1_a", godi.Singleton, withAs("IK1", "IA", "IB"), withName("k")), mkReg("Leaf_K2_a", godi.Transient, withAs("IK2", "IB"), withGroup("g")), mkReg("OutG_K0K1", godi.Scoped), mkReg("MR_S0S4", godi.Transient, withGroup("h"))}},
 	}
 	for k := 0; k < nSpecs+len(directed); k++ {
 		idx, mine := cr.next()
